@@ -283,8 +283,8 @@ def run(ctx):
             # palette None -> Err
             okn = False
             for cond, vals, a in q.guards(body, bb):
-                if cond[0] == 'discr' and is_param(cond[1]) and body.locals[cond[1][1]]['ty'].startswith('std::option::Option<std::sync::Arc<') \
-                        and vals == [1]:
+                if cond[0] == 'discr' and is_param(cond[1]) and body.locals[cond[1][1]]['ty'].startswith('std::option::Option<') \
+                        and 'ColorPalette' in body.locals[cond[1][1]]['ty'] and vals == [1]:
                     tm = body.blocks[a]['term']
                     none_edge = [s for v, s in tm['targets'] if v == 0] or [tm['otherwise']]
                     okn = all(q.arm_always_err(body, e) for e in none_edge)
